@@ -388,3 +388,27 @@ def sanity(ctx):
     v, m, kk = core.refute_finite(pc, w2.J(), kmax=4)
     ctx.check(f"J-preservation-{what}-has-a-finite-countermodel(the-hypothesis-is-needed,the-lemma-is-not-vacuous)", bool(v == "refuted"), info=f"{v} K={kk}\n{m[:600]}")
     return "ok"
+
+
+@unit("history.spec-agreement", props=["C03", "C05", "C08"], functions=[],
+      assumptions=["links the lemma library to the per-node contract proved on the code: W.local is the same function as contracts/stale.py own_store_out_of_date"],
+      min_obligations=16, kind="lemma")
+def spec_agreement(ctx):
+    import itertools
+
+    from .stale import own_store_out_of_date
+
+    class T:
+        def __init__(self, t):
+            self.t = t
+
+    w = W("w")
+    n = ctx.fresh(Node, "n")
+    for has_store, is_source, has_mt, has_A, has_fresh in itertools.product((False, True), repeat=5):
+        if is_source and not has_store:
+            continue
+        code_spec = own_store_out_of_date(has_store, is_source, T(w.mt(n)) if has_mt else None, T(w.A(n)) if has_A else None, T(w.fresh) if has_fresh else None)
+        pre = z3.And(reg(n) == has_store, src(n) == is_source, w.has(n) == has_mt, w.hasA(n) == has_A, w.hasFresh == has_fresh)
+        ctx.check("own-store-disjunct-of-the-lemma-library==the-spec-function-the-code-was-verified-against",
+                  z3.Implies(pre, z3.And(reg(n), w.local(n)) == code_spec))
+    return "ok"
